@@ -159,6 +159,40 @@ func runELEMDECODE(c *Ctx) {
 			}
 		}
 	}
+	// (3) what is stored as the element is what was decoded: the value read back from the very target that was handed
+	// to an unmarshal callback before (a local variable, a reflect.New value), a conversion of the body itself, or the
+	// result of a converter; a store of a value no decoding step produced (the target read before the call, a fresh zero
+	// value) is the undecoded element again
+	for _, fn := range P.Funcs {
+		if fn.Pkg == nil || fn.Pkg.Pkg.Path() != ir.MastPath || !decoders[ir.Outermost(fn)] {
+			continue
+		}
+		for _, b := range fn.Blocks {
+			for _, ins := range b.Instrs {
+				st, ok := ins.(*ssa.Store)
+				if !ok {
+					continue
+				}
+				ia, ok := st.Addr.(*ssa.IndexAddr)
+				if !ok {
+					continue
+				}
+				if _, fresh := ir.ResolveCell(ia.X).(*ssa.MakeSlice); !fresh || !inCycle(b) {
+					continue
+				}
+				if _, isIface := st.Val.Type().Underlying().(*types.Interface); !isIface {
+					continue
+				}
+				n++
+				if why, ok := decodedValue(c, st.Val, st, 0); ok {
+					c.OK(P.InstrPos(st), "element stored by "+ir.FuncName(fn), why, false)
+				} else {
+					c.Violation(fn, P.InstrPos(st), "the element stored is not what was decoded",
+						"the value put into the list does not come out of a decoding step that ran before the store (the target handed to the unmarshal callback, read back afterwards; a conversion of the body; a converter's result): the slot gets a zero value although a body was present")
+				}
+			}
+		}
+	}
 	if n == 0 {
 		c.AnchorMissing("a presence test of an element body in an element-wise decoder")
 	}
@@ -167,4 +201,120 @@ func runELEMDECODE(c *Ctx) {
 func isByte(t types.Type) bool {
 	b, ok := t.Underlying().(*types.Basic)
 	return ok && b.Kind() == types.Uint8
+}
+
+// decodedValue: v (stored at `at`) is produced by a decoding step that ran before.
+func decodedValue(c *Ctx, v ssa.Value, at ssa.Instruction, d int) (string, bool) {
+	if d > 6 {
+		return "", false
+	}
+	isCallback := func(ci ssa.CallInstruction) bool {
+		_, isParam := ir.ResolveCell(ci.Common().Value).(*ssa.Parameter)
+		_, isFV := ir.ResolveCell(ci.Common().Value).(*ssa.FreeVar)
+		return isParam || isFV || len(c.Facts.External(ci)) > 0 && c.Facts.External(ci)[:min(9, len(c.Facts.External(ci)))] == "callback:"
+	}
+	// the target was handed to a callback call that precedes `at`
+	handedBefore := func(target ssa.Value) bool {
+		seen := map[ssa.Value]bool{}
+		var walk func(x ssa.Value, dd int) bool
+		walk = func(x ssa.Value, dd int) bool {
+			if dd > 4 || seen[x] || x.Referrers() == nil {
+				return false
+			}
+			seen[x] = true
+			for _, r := range *x.Referrers() {
+				switch y := r.(type) {
+				case ssa.CallInstruction:
+					isArg := false
+					for _, a := range y.Common().Args {
+						if a == x {
+							isArg = true
+						}
+					}
+					if isArg && isCallback(y) && ir.InstrReaches(y, at) && ir.Before(y, at) {
+						return true
+					}
+					// (reflect.Value).Interface(x) etc.: the derived value may be what is handed over
+					if cv := y.Value(); cv != nil && isArg {
+						if walk(cv, dd+1) {
+							return true
+						}
+					}
+				case *ssa.MakeInterface:
+					if walk(y, dd+1) {
+						return true
+					}
+				}
+			}
+			return false
+		}
+		return walk(target, 0)
+	}
+	switch x := v.(type) {
+	case *ssa.UnOp:
+		if x.Op == token.MUL {
+			if a, ok := x.X.(*ssa.Alloc); ok && handedBefore(a) {
+				return "read back from the variable handed to the unmarshal callback", true
+			}
+		}
+	case *ssa.Call:
+		// elem.Elem().Interface(): follow the receiver chain to the reflect.New value
+		if sc := ir.Callee(x.Call); sc != nil && (sc.String() == "(reflect.Value).Interface" || sc.String() == "(reflect.Value).Elem") && len(x.Call.Args) > 0 {
+			recv := x.Call.Args[0]
+			if rc, ok := recv.(*ssa.Call); ok {
+				if sc2 := ir.Callee(rc.Call); sc2 != nil && sc2.String() == "reflect.New" {
+					if handedBefore(rc) {
+						return "read back from the reflect.New value handed to the unmarshal callback", true
+					}
+					return "", false
+				}
+			}
+			return decodedValue(c, recv, at, d+1)
+		}
+		if isCallback(x) {
+			return "result of a converter", true
+		}
+	case *ssa.Extract:
+		if call, ok := x.Tuple.(*ssa.Call); ok && isCallback(call) {
+			return "result of a converter", true
+		}
+		// a same-package helper that decodes one element: each of its successful returns hands back a decoded value
+		if call, ok := x.Tuple.(*ssa.Call); ok {
+			if h := ir.Callee(call.Call); h != nil && h.Blocks != nil && h.Pkg != nil && h.Pkg.Pkg.Path() == ir.MastPath {
+				ei := ir.ErrorResultIndex(h.Signature)
+				n := 0
+				for _, r := range ir.Returns(h) {
+					if ei >= 0 && !ir.IsNilConst(r.Results[ei]) {
+						continue
+					}
+					n++
+					if x.Index >= len(r.Results) {
+						return "", false
+					}
+					if _, ok := decodedValue(c, r.Results[x.Index], r, d+1); !ok {
+						return "", false
+					}
+				}
+				if n > 0 {
+					return "result of the element decoder " + ir.FuncName(h), true
+				}
+			}
+		}
+	case *ssa.MakeInterface:
+		// string(body) / the body itself boxed
+		if cv, ok := x.X.(*ssa.Convert); ok {
+			if _, isBytes := cv.X.Type().Underlying().(*types.Slice); isBytes {
+				return "a conversion of the body", true
+			}
+		}
+		return decodedValue(c, x.X, at, d+1)
+	case *ssa.Phi:
+		for _, e := range x.Edges {
+			if _, ok := decodedValue(c, e, at, d+1); !ok {
+				return "", false
+			}
+		}
+		return "every merged value is a decoded one", len(x.Edges) > 0
+	}
+	return "", false
 }
